@@ -19,7 +19,13 @@ import (
 	wrkchaintypes "github.com/unification-com/mainchain/x/wrkchain/types"
 )
 
+type pendingTx struct {
+	bz []byte
+	ev M
+}
+
 type Runner struct {
+	pending []pendingTx
 	W      *World
 	Tr     *Track
 	Out    *bufio.Writer
@@ -289,7 +295,23 @@ func (r *Runner) execOn(w *World, ev M, primary bool) (J, error) {
 		} else {
 			rr := w.App.CheckTx(abci.RequestCheckTx{Tx: bz, Type: abci.CheckTxType_New})
 			res = txResJ(rr.Code, rr.Codespace, rr.Data, rr.Log, rr.GasWanted, rr.GasUsed, r)
+			if primary && rr.Code == 0 && mBool(ev, "keep") {
+				// stays in the (simulated) mempool: re-offered by a later Recheck event
+				r.pending = append(r.pending, pendingTx{bz: bz, ev: ev})
+			}
 		}
+	case "Recheck":
+		// what CometBFT does with every pending transaction after a block: CheckTx in recheck mode
+		results := []interface{}{}
+		txs := []interface{}{}
+		for _, p := range r.pending {
+			rr := w.App.CheckTx(abci.RequestCheckTx{Tx: p.bz, Type: abci.CheckTxType_Recheck})
+			results = append(results, J{"ok": rr.Code == 0, "code": rr.Code, "cs": rr.Codespace})
+			txs = append(txs, p.ev)
+		}
+		res["ok"] = true
+		res["results"] = results
+		res["txs"] = txs
 	case "Crash":
 		// the process dies here: nothing is executed; Restart re-opens the database
 		res["ok"] = true
@@ -334,6 +356,7 @@ func (r *Runner) Step(ev M) error {
 			r.Orig = nil
 		}
 		r.Tr = &Track{WrkEver: map[uint64][]uint64{}, BcnEver: map[uint64][]uint64{}}
+		r.pending = nil
 		w, err := NewWorld(g)
 		if err != nil {
 			return err
